@@ -57,3 +57,37 @@ def parseInts (ts : List String) : List Int := ts.filterMap String.toInt?
 def verdict (ok : Bool) (why : String) : String := if ok then "ok" else "bad " ++ why
 
 end MdsVerif.Drv
+
+namespace MdsVerif.Drv
+
+/-- parse `[1 2 3]` -/
+def parseNatList (s : String) : List Nat :=
+  let s := (s.replace "[" "").replace "]" ""
+  (s.splitOn " ").filterMap String.toNat?
+
+def parseIntList (s : String) : List Int :=
+  let s := (s.replace "[" "").replace "]" ""
+  (s.splitOn " ").filterMap String.toInt?
+
+/-- fields of an observation `k1=v1;k2=v2;…` (values may contain spaces, not `;`) -/
+def fields (obs : String) : List (String × String) :=
+  (obs.splitOn ";").filterMap fun kv =>
+    match kv.splitOn "=" with
+    | k :: v :: rest => some (k.trimAscii.toString, "=".intercalate (v :: rest))
+    | _ => none
+
+def field (obs : String) (k : String) : String :=
+  ((fields obs).lookup k).getD ""
+
+/-- insertion sort (tiny lists only; keeps the driver free of any library dependency) -/
+def isort [Ord α] (l : List α) : List α :=
+  l.foldl (fun acc x =>
+    let (a, b) := acc.span (fun y => compare y x != .gt)
+    a ++ x :: b) []
+
+def firstBad (checks : List (Bool × String)) : String :=
+  match checks.find? (fun c => !c.1) with
+  | none => "ok"
+  | some c => "bad " ++ c.2
+
+end MdsVerif.Drv
